@@ -24,6 +24,9 @@ def items(tier):
             for api in APIS2 + ["CountString", "AllStringIndex"]:
                 n = -1 if api.startswith("All") else 99
                 out.append(mk("C04", p, api, 3, a, n=n, strategy=strat, extra="1" if api.startswith("Append") else ""))
+        for pre, post in corpus.windows(p):
+            out.append(mk("C04", p, "FindAllIndex", maxL, a, n=-1, strategy=strat, pre=pre, post=post))
+            out.append(mk("C04", p, "Count", maxL, a, n=-1, strategy=strat, pre=pre, post=post))
         out.append(mk("C04", p, "AllIndexBreak", 3, a, n=1, strategy=strat))
         out.append(mk("C04", p, "AppendAllIndex", 2, a, n=-1, strategy=strat, extra="0"))
     return out
